@@ -566,6 +566,271 @@ func genSpatial(g *vlib.G) {
 		})
 	}
 
+	// Independence of results from operands after the call (post-call histories). For every r3.Mat method that
+	// stores a matrix result in the receiver, every receiver state {zero value, NewMat(nil), NewMat(data),
+	// previously used as a destination, previously used as a source} and every kind of matrix operand
+	// {*r3.Mat with data, zero-value *r3.Mat, *mat.Dense, transposed view of a Dense, transposed view of a Mat}:
+	// (1) the result equals the definition, (2) the operands are unchanged, (3) writing to every operand
+	// afterwards does not change the result, (4) writing to the result afterwards does not change any operand,
+	// (5) two results computed from the same operands do not share storage. (T and RawMatrix are documented
+	// views and are checked to BE views; NewMat(data) is checked to share data in both builds.)
+	type matOp struct {
+		name string
+		nsrc int
+		do   func(recv *r3.Mat, src []mat.Matrix)
+		want func(src []m33) m33
+	}
+	ew := func(f func(a, b float64) float64) func(src []m33) m33 {
+		return func(src []m33) (c m33) {
+			for i := 0; i < 3; i++ {
+				for j := 0; j < 3; j++ {
+					c[i][j] = f(src[0][i][j], src[len(src)-1][i][j])
+				}
+			}
+			return c
+		}
+	}
+	vx, vy := r3.Vec{X: 1, Y: -2, Z: 3}, r3.Vec{X: -1, Y: 0, Z: 2}
+	matOps := []matOp{
+		{"CloneFrom", 1, func(r *r3.Mat, s []mat.Matrix) { r.CloneFrom(s[0]) }, func(s []m33) m33 { return s[0] }},
+		{"Scale", 1, func(r *r3.Mat, s []mat.Matrix) { r.Scale(2, s[0]) }, ew(func(a, _ float64) float64 { return 2 * a })},
+		{"Add", 2, func(r *r3.Mat, s []mat.Matrix) { r.Add(s[0], s[1]) }, ew(func(a, b float64) float64 { return a + b })},
+		{"Sub", 2, func(r *r3.Mat, s []mat.Matrix) { r.Sub(s[0], s[1]) }, ew(func(a, b float64) float64 { return a - b })},
+		{"Mul", 2, func(r *r3.Mat, s []mat.Matrix) { r.Mul(s[0], s[1]) }, func(s []m33) m33 { return s[0].mul(s[1]) }},
+		{"Outer", 0, func(r *r3.Mat, s []mat.Matrix) { r.Outer(2, vx, vy) }, func([]m33) m33 {
+			return m33{{-2, 0, 4}, {4, 0, -8}, {-6, 0, 12}}
+		}},
+		{"Skew", 0, func(r *r3.Mat, s []mat.Matrix) { r.Skew(vx) }, func([]m33) m33 { return m33{{0, -3, -2}, {3, 0, -1}, {2, 1, 0}} }},
+		{"Jacobian", 0, func(r *r3.Mat, s []mat.Matrix) {
+			r.Jacobian(vy, r3.Vec{X: 0.5, Y: 1, Z: 0.25}, func(v r3.Vec) r3.Vec { return r3.Vec{X: 2*v.X - v.Z, Y: v.Y + 3*v.Z, Z: v.X} })
+		}, func([]m33) m33 { return m33{{2, 0, -1}, {0, 1, 3}, {1, 0, 0}} }},
+		{"Hessian", 0, func(r *r3.Mat, s []mat.Matrix) {
+			r.Hessian(vy, r3.Vec{X: 0.5, Y: 1, Z: 0.25}, func(v r3.Vec) float64 { return v.X*v.X - 2*v.X*v.Y + 3*v.Z*v.Z + v.Y*v.Z })
+		}, func([]m33) m33 { return m33{{2, -2, 0}, {-2, 0, 1}, {0, 1, 6}} }},
+	}
+	// a source: the matrix handed to the method, its value, and a function that overwrites its storage
+	type source struct {
+		m      mat.Matrix
+		val    m33
+		mutate func() m33 // writes new values into the underlying storage, returns the new value seen through m
+	}
+	srcKinds := []string{"Mat", "zero Mat", "Dense", "Dense.T", "Mat.T"}
+	newSource := func(kind int, a m33) source {
+		bump := func(set func(i, j int, v float64), view func() mat.Matrix) func() m33 {
+			return func() m33 {
+				for i := 0; i < 3; i++ {
+					for j := 0; j < 3; j++ {
+						set(i, j, float64(100+10*i+j))
+					}
+				}
+				return readMat(view())
+			}
+		}
+		switch kind {
+		case 0:
+			m := r3.NewMat(a.flat())
+			return source{m, a, bump(m.Set, func() mat.Matrix { return m })}
+		case 1:
+			m := new(r3.Mat)
+			return source{m, m33{}, bump(m.Set, func() mat.Matrix { return m })}
+		case 2:
+			d := mat.NewDense(3, 3, a.flat())
+			return source{d, a, bump(d.Set, func() mat.Matrix { return d })}
+		case 3:
+			d := mat.NewDense(3, 3, a.tr().flat())
+			return source{d.T(), a, bump(d.Set, func() mat.Matrix { return d.T() })}
+		default:
+			m := r3.NewMat(a.tr().flat())
+			return source{m.T(), a, bump(m.Set, func() mat.Matrix { return m.T() })}
+		}
+	}
+	recvKinds := []string{"zero value", "NewMat(nil)", "NewMat(data)", "used as destination", "used as source"}
+	newRecv := func(kind int, seed uint64) *r3.Mat {
+		switch kind {
+		case 0:
+			return new(r3.Mat)
+		case 1:
+			return r3.NewMat(nil)
+		case 2:
+			return r3.NewMat(intMat(seed + 77).flat())
+		case 3:
+			m := new(r3.Mat)
+			m.Mul(r3.NewMat(intMat(seed+5).flat()), r3.NewMat(intMat(seed+6).flat()))
+			m.CloneFrom(mat.NewDense(3, 3, intMat(seed+7).flat()))
+			return m
+		default:
+			m := r3.NewMat(intMat(seed + 8).flat())
+			var other r3.Mat
+			other.CloneFrom(m)
+			other.Add(m, m)
+			return m
+		}
+	}
+	for oi, op := range matOps {
+		op := op
+		g.Case(fmt.Sprintf("r3.Mat.%s independence of result and operands", op.name), func(t *vlib.T) {
+			n := 0
+			nk := len(srcKinds)
+			if op.nsrc == 0 {
+				nk = 1
+			}
+			for rk := range recvKinds {
+				for k0 := 0; k0 < nk; k0++ {
+					for k1 := 0; k1 < nk; k1++ {
+						if op.nsrc < 2 && k1 > 0 {
+							continue
+						}
+						n++
+						seed := uint64(oi*1000 + rk*100 + k0*10 + k1)
+						ctx := fmt.Sprintf("receiver %q", recvKinds[rk])
+						var srcs []source
+						if op.nsrc >= 1 {
+							srcs = append(srcs, newSource(k0, intMat(seed)))
+							ctx += fmt.Sprintf(", operand %q", srcKinds[k0])
+						}
+						if op.nsrc == 2 {
+							srcs = append(srcs, newSource(k1, intMat(seed+500)))
+							ctx += fmt.Sprintf(" and %q", srcKinds[k1])
+						}
+						ms := make([]mat.Matrix, len(srcs))
+						vals := make([]m33, len(srcs))
+						for i, s := range srcs {
+							ms[i], vals[i] = s.m, s.val
+						}
+						want := op.want(vals)
+						recv, recv2 := newRecv(rk, seed), newRecv(rk, seed)
+						op.do(recv, ms)
+						op.do(recv2, ms)
+						if got := readMat(recv); got != want {
+							t.Failf("%s, %s: result %v want %v", op.name, ctx, got, want)
+							return
+						}
+						for i, s := range srcs {
+							if got := readMat(s.m); got != s.val {
+								t.Failf("%s, %s: operand %d changed by the call: %v, was %v", op.name, ctx, i, got, s.val)
+								return
+							}
+						}
+						// (3) writes to the operands after the call
+						for i := range srcs {
+							vals[i] = srcs[i].mutate()
+							if got := readMat(recv); got != want {
+								t.Failf("%s, %s: a write to operand %d after the call changed the result: %v want %v (result shares storage with the operand)", op.name, ctx, i, got, want)
+								return
+							}
+						}
+						// (4) writes to the result after the call
+						for i := 0; i < 3; i++ {
+							for j := 0; j < 3; j++ {
+								recv.Set(i, j, -7)
+							}
+						}
+						for i, s := range srcs {
+							if got := readMat(s.m); got != vals[i] {
+								t.Failf("%s, %s: a write to the result after the call changed operand %d: %v want %v", op.name, ctx, i, got, vals[i])
+								return
+							}
+						}
+						// (5) a second result computed from the same operands is independent of the first
+						if got := readMat(recv2); got != want {
+							t.Failf("%s, %s: a write to one result changed another result of the same call: %v want %v", op.name, ctx, got, want)
+							return
+						}
+					}
+				}
+			}
+			t.Count("independence_histories", int64(n))
+			t.Nontrivial()
+			t.Outcome("r3-mat-independence")
+		})
+	}
+	g.Case("r3 matrix constructors return fresh storage; documented views are views", func(t *vlib.T) {
+		id := m33{{1, 0, 0}, {0, 1, 0}, {0, 0, 1}}
+		e1, e2 := r3.Eye(), r3.Eye()
+		e1.Set(0, 1, 9)
+		e1.Scale(3, e1)
+		if readMat(e2) != id || readMat(r3.Eye()) != id {
+			t.Failf("Eye() results share storage: %v", readMat(e2))
+		}
+		v := r3.Vec{X: 1, Y: 2, Z: 3}
+		s1, s2 := r3.Skew(v), r3.Skew(v)
+		want := readMat(s2)
+		s1.Set(0, 0, 5)
+		if readMat(s2) != want || readMat(r3.Skew(v)) != want {
+			t.Failf("Skew(v) results share storage")
+		}
+		rot := r3.NewRotation(1, r3.Vec{X: 1, Y: 1})
+		m1, m2 := rot.Mat(), rot.Mat()
+		wantR := readMat(m2)
+		m1.Scale(0, m1)
+		if readMat(m2) != wantR || readMat(rot.Mat()) != wantR {
+			t.Failf("Rotation.Mat() results share storage")
+		}
+		z1, z2 := r3.NewMat(nil), r3.NewMat(nil)
+		z1.Set(2, 2, 4)
+		if readMat(z2) != (m33{}) {
+			t.Failf("NewMat(nil) results share storage")
+		}
+		// T: "Changes in the receiver will be reflected in the returned matrix."
+		a := intMat(3)
+		m := r3.NewMat(a.flat())
+		tv := m.T()
+		m.Set(0, 2, 42)
+		if tv.At(2, 0) != 42 {
+			t.Failf("T() is not a view of the receiver")
+		}
+		// zero-value receiver: T of a matrix without storage, then a write to the receiver
+		var z r3.Mat
+		tz := z.T()
+		z.Set(1, 0, 6)
+		if tz.At(0, 1) != 6 {
+			t.Failf("T() of a zero-value Mat is not a view of the receiver")
+		}
+		// a zero-value matrix used as its own operand
+		bm := intMat(11)
+		var zs r3.Mat
+		zs.Add(&zs, r3.NewMat(bm.flat()))
+		if readMat(&zs) != bm {
+			t.Failf("zero-value m.Add(m, B) = %v want %v", readMat(&zs), bm)
+		}
+		var zc, zm r3.Mat
+		zc.CloneFrom(&zc)
+		zm.Mul(&zm, &zm)
+		zm.Scale(3, &zm)
+		if readMat(&zc) != (m33{}) || readMat(&zm) != (m33{}) {
+			t.Failf("zero-value matrix as its own operand: %v %v", readMat(&zc), readMat(&zm))
+		}
+		// chains of clones stay independent: c2 <- c1 <- src, then write to each in turn
+		src := r3.NewMat(bm.flat())
+		var c1, c2 r3.Mat
+		c1.CloneFrom(src)
+		c2.CloneFrom(&c1)
+		c1.Set(0, 0, 50)
+		src.Set(1, 1, 60)
+		if readMat(&c2) != bm {
+			t.Failf("clone of a clone changed by writes to its ancestors: %v want %v", readMat(&c2), bm)
+		}
+		c2.Set(2, 2, 70)
+		if c1.At(2, 2) != bm[2][2] || src.At(2, 2) != bm[2][2] || src.At(0, 0) != bm[0][0] {
+			t.Failf("write to a clone of a clone visible in its ancestors")
+		}
+		// Box.Vertices returns a fresh slice
+		b3 := r3.Box{Min: r3.Vec{X: 0, Y: 0, Z: 0}, Max: r3.Vec{X: 1, Y: 2, Z: 3}}
+		w1 := b3.Vertices()
+		w1[0] = r3.Vec{X: 9}
+		if b3.Vertices()[0] != b3.Min || b3.Min != (r3.Vec{}) {
+			t.Failf("r3.Box.Vertices shares storage between calls")
+		}
+		b2 := r2.Box{Min: r2.Vec{X: 0, Y: 0}, Max: r2.Vec{X: 1, Y: 2}}
+		u1 := b2.Vertices()
+		u1[0] = r2.Vec{X: 9}
+		if b2.Vertices()[0] != b2.Min {
+			t.Failf("r2.Box.Vertices shares storage between calls")
+		}
+		t.Nontrivial()
+		t.Outcome("r3-fresh-storage")
+	})
+
 	g.Case("r2/r3 boxes on the integer grid", func(t *vlib.T) {
 		c1 := []float64{-1, 0, 2}
 		var b3 []r3.Box
